@@ -60,9 +60,14 @@ def run(tier):
         if not p['server']:
             continue
         # once with the required host keys only, once with the policy's optional host keys offered as well (those the tool can probe)
-        for keys in (list(p['host_keys']), list(p['host_keys']) + [t for t in p.get('optional_host_keys', []) if t in rating.DEFAULT_HK and t not in p['host_keys']]):
+        SK = 'sk-ssh-ed25519@openssh.com'
+        for keys in (list(p['host_keys']), list(p['host_keys']) + [t for t in p.get('optional_host_keys', []) if (t in rating.DEFAULT_HK or t == SK) and t not in p['host_keys']]):
             hk = {}
+            if SK in keys:
+                hk[SK] = peers.sk_ed25519_blob()          # a security-key host key, presented if anybody asks for it
             for t in keys:
+                if t == SK:
+                    continue
                 v = p['hostkey_sizes'].get(t)
                 meas = (v['hostkey_size'], v.get('ca_key_type', ''), v.get('ca_key_size', 0)) if v else rating.DEFAULT_HK.get(t)
                 if meas:
